@@ -3,10 +3,13 @@ package props
 import (
 	"bytes"
 	"fmt"
+	"os"
+	"path/filepath"
 	"strings"
 	"sync"
 
 	"github.com/jrhy/mast"
+	"github.com/jrhy/mast/persist/file"
 
 	"verif/internal/fw"
 	"verif/internal/kinds"
@@ -137,7 +140,61 @@ func c08Root(c *fw.C, d *Driver, root *mast.Root) {
 	}
 }
 
+// c08File runs a history on the real file backend and then reads the node
+// directory itself: every file must be named by the digest of its own content.
+func c08File(c *fw.C) {
+	cfg := pickCfg(c.R)
+	scratch := os.Getenv("VERIF_SCRATCH")
+	if scratch == "" {
+		scratch = os.TempDir()
+	}
+	dir, err := os.MkdirTemp(scratch, "c08-")
+	if err != nil {
+		return
+	}
+	defer os.RemoveAll(dir)
+	d := NewDriver(c, "C08", cfg, c.R.Range(6, 60))
+	if d.Failed {
+		return
+	}
+	d.E.Persist = file.NewPersistForPath(dir)
+	d.E.Store = nil
+	d.WFault = 0
+	t, err := d.E.New()
+	if err != nil {
+		return
+	}
+	d.T = t
+	d.WPersist, d.WReload, d.WClone = 8, 4, 3
+	c.Desc("file backend cfg{%s}", cfg)
+	for i := c.R.Range(30, 100); i > 0 && !d.Failed; i-- {
+		d.Step()
+	}
+	if d.Failed {
+		return
+	}
+	d.Persist()
+	ents, _ := os.ReadDir(dir)
+	for _, en := range ents {
+		b, err := os.ReadFile(filepath.Join(dir, en.Name()))
+		if err != nil {
+			continue
+		}
+		c.Obs("node_files_checked", 1)
+		if want := ref.Name(b); want != en.Name() {
+			c.Violation("C08.name_is_hash_of_bytes", map[string]string{"format": string(cfg.Format), "backend": "file"},
+				"the node directory holds the file %q whose %d bytes hash to %q | cfg{%s}", en.Name(), len(b), want, cfg)
+			return
+		}
+		c.NonTrivial(fw.StrHash("file" + en.Name()))
+	}
+}
+
 func runC08(c *fw.C) {
+	if c.Idx%16 == 15 {
+		c08File(c)
+		return
+	}
 	cfg := pickCfg(c.R)
 	pool := c.R.Range(6, 80)
 	nops := c.R.Range(40, 150)
